@@ -75,8 +75,9 @@ func (a *Application) registerTranslatorRoutes() {
 			handler := a.translationHandler(trans)
 
 			// messages are proxied to the backends like any other proxy route: they go through the
-			// same security chain (per-client rate limit, body size limit)
-			a.routeRegistry.RegisterProxyRoute(
+			// same security chain (per-client rate limit, body size limit). The handler works on the
+			// request's own path, so no route prefix is put into the context.
+			a.routeRegistry.RegisterSecuredRoute(
 				path,
 				handler,
 				name+" Messages API",
